@@ -313,7 +313,9 @@ pub fn run_history(line: &str, with_diff: bool) -> String {
         in_context(if unwinding { 1 } else if threaded { 2 } else { 0 }, || { r = catch_unwind(AssertUnwindSafe(|| {
             let mut inj = InjectorPP::new();
             // a thread that is ALREADY waiting for the guard while this lifetime runs (and possibly unwinds)
-            std::thread::spawn(move || { let i = InjectorPP::new(); drop(i); let _ = wtx.send(()); });
+            let (stx, srx) = std::sync::mpsc::channel();
+            std::thread::spawn(move || { let _ = stx.send(()); let i = InjectorPP::new(); drop(i); let _ = wtx.send(()); });
+            let _ = srx.recv_timeout(std::time::Duration::from_secs(3));       // the thread has started (its runtime set-up is over) before the first operation
             std::thread::sleep(std::time::Duration::from_micros(200));
             let mut oi = 0;
             for op in ops.iter() {
